@@ -600,6 +600,9 @@ func (n *BlockNode) Release() {
 	ReleaseBlockNode(n)
 }
 
+// maxBlockDepth bounds how deeply block renderings may nest within one context
+const maxBlockDepth = 256
+
 // Render renders the block node
 func (n *BlockNode) Render(w io.Writer, ctx *RenderContext) error {
 	// The definitions of this block along the extends chain, most derived first.
@@ -616,6 +619,14 @@ func (n *BlockNode) Render(w io.Writer, ctx *RenderContext) error {
 	}
 	if !known {
 		defs = append(defs[:len(defs):len(defs)], n)
+	}
+
+	// A block whose rendering reaches a block of the same name again (a block nested in
+	// itself, directly or through overrides) would never terminate
+	ctx.blockDepth++
+	defer func() { ctx.blockDepth-- }()
+	if ctx.blockDepth > maxBlockDepth {
+		return fmt.Errorf("block '%s' is nested more than %d levels deep (recursive block definition?)", n.name, maxBlockDepth)
 	}
 
 	// Render the most derived definition, even when its body is empty.
